@@ -1,22 +1,40 @@
-(* C08: the command line of cmd/zygo.  cmd/zygo/main.go: cfg.DefineFlags(); cfg.Flags.Parse(os.Args[1:]);
-   zygo.ReplMain(cfg).  The arguments are modelled after lexing (what Go's flag.FlagSet.parseOne makes of
-   one argument); scan mirrors flag.FlagSet.Parse: flags are consumed until the first argument that is not
-   a flag or until "--"; a flag taking a value consumes the next argument whatever it looks like; an
-   undefined flag or a missing value rejects the command line (flag.ExitOnError: exit status 2, nothing runs).
-   repl.go ReplMain: cfg.Sandboxed chooses NewZlispSandbox; a -c command wins over a script argument.
+(* C08: the command line and the session of cmd/zygo.  cmd/zygo/main.go: cfg.DefineFlags();
+   cfg.Flags.Parse(os.Args[1:]); zygo.ReplMain(cfg).  The arguments are modelled after lexing (what Go's
+   flag.FlagSet.parseOne makes of one argument); scan mirrors flag.FlagSet.Parse: flags are consumed until
+   the first argument that is not a flag or until "--"; a flag taking a value consumes the next argument
+   whatever it looks like; an undefined flag or a missing value rejects the command line
+   (flag.ExitOnError: exit status 2, nothing runs).
+   repl.go ReplMain: cfg.Sandboxed chooses NewZlispSandbox ONCE; everything that evaluates text afterwards
+   (the -c command, the script, the repl a failed script drops into, the repl after -i, the plain repl)
+   runs on that interpreter.  plan mirrors the control flow of ReplMain / runScript / Repl (Repl ends the
+   process at end of input).
    Executable definitions only; proofs in Proofs/CmdlineProofs.v. *)
 From Coq Require Import List Bool.
 Import ListNotations.
 
 Inductive arg :=
 | ASandbox (v : option bool)   (* -sandbox / --sandbox (None) or -sandbox=true / -sandbox=false *)
+| AInteractive (v : bool)      (* -i, -i=true / -i=false *)
+| AExitOnFail (v : bool)       (* -exitonfail, =true / =false *)
 | ABool                        (* any other defined boolean flag, with or without =value *)
-| AStr (inline : bool)         (* a defined string flag (-c, -cpuprofile, -memprofile): -c=text (true) or -c (false: takes the next argument) *)
+| ACommand (inline : bool)     (* -c=text (true) or -c (false: takes the next argument as the text) *)
+| AStr (inline : bool)         (* another defined string flag (-cpuprofile, -memprofile) *)
 | ADashDash                    (* -- *)
 | APlain                       (* an argument that is not a flag: does not start with '-', or is "-" *)
 | ABad.                        (* undefined flag, bad flag syntax, unparsable boolean value *)
 
-Record st := { sandboxed_flag : bool }.
+Record st := { sandboxed_flag : bool; interactive : bool; exitonfail : bool; command : bool }.
+
+Definition st0 : st := {| sandboxed_flag := false; interactive := false; exitonfail := false; command := false |}.
+
+Definition set_sandbox (s : st) (b : bool) : st :=
+  {| sandboxed_flag := b; interactive := interactive s; exitonfail := exitonfail s; command := command s |}.
+Definition set_interactive (s : st) (b : bool) : st :=
+  {| sandboxed_flag := sandboxed_flag s; interactive := b; exitonfail := exitonfail s; command := command s |}.
+Definition set_exitonfail (s : st) (b : bool) : st :=
+  {| sandboxed_flag := sandboxed_flag s; interactive := interactive s; exitonfail := b; command := command s |}.
+Definition set_command (s : st) : st :=
+  {| sandboxed_flag := sandboxed_flag s; interactive := interactive s; exitonfail := exitonfail s; command := true |}.
 
 Inductive scanres :=
 | Rejected
@@ -25,8 +43,12 @@ Inductive scanres :=
 Fixpoint scan (s : st) (l : list arg) : scanres :=
   match l with
   | [] => Parsed s []
-  | ASandbox v :: r => scan {| sandboxed_flag := match v with None => true | Some b => b end |} r
+  | ASandbox v :: r => scan (set_sandbox s (match v with None => true | Some b => b end)) r
+  | AInteractive b :: r => scan (set_interactive s b) r
+  | AExitOnFail b :: r => scan (set_exitonfail s b) r
   | ABool :: r => scan s r
+  | ACommand true :: r => scan (set_command s) r
+  | ACommand false :: r => match r with [] => Rejected | _ :: r' => scan (set_command s) r' end
   | AStr true :: r => scan s r
   | AStr false :: r => match r with [] => Rejected | _ :: r' => scan s r' end
   | ADashDash :: r => Parsed s r
@@ -36,10 +58,12 @@ Fixpoint scan (s : st) (l : list arg) : scanres :=
 
 Inductive outcome := ORejected | OSandboxed | OOpen.
 
+Definition kind_of (s : st) : outcome := if sandboxed_flag s then OSandboxed else OOpen.
+
 Definition run_cmdline (l : list arg) : outcome :=
-  match scan {| sandboxed_flag := false |} l with
+  match scan st0 l with
   | Rejected => ORejected
-  | Parsed s _ => if sandboxed_flag s then OSandboxed else OOpen
+  | Parsed s _ => kind_of s
   end.
 
 (* the specification: the last sandbox flag of the flag part decides, nothing after the flag part matters *)
@@ -52,4 +76,33 @@ Fixpoint last_sandbox (acc : bool) (l : list arg) : bool :=
 
 (* a flag part: only flags, every string flag carries its value inline, nothing rejected *)
 Definition is_flag (a : arg) : bool :=
-  match a with ASandbox _ | ABool | AStr true => true | _ => false end.
+  match a with
+  | ASandbox _ | AInteractive _ | AExitOnFail _ | ABool | ACommand true | AStr true => true
+  | _ => false
+  end.
+
+(* ---- the session: which pieces of text get evaluated, in which order ---- *)
+Inductive phase :=
+| PhCommand                  (* the -c text; the process ends after it *)
+| PhScript                   (* the script file *)
+| PhReplAfterFailedScript    (* runScript: the script ended in an error and -exitonfail was not given *)
+| PhReplAfterScript          (* -i: stay interactive after the script *)
+| PhRepl.                    (* no script, no command *)
+
+(* repl.go ReplMain / runScript; script_fails = the script ends in an error *)
+Definition plan (s : st) (rest : list arg) (script_fails : bool) : list phase :=
+  if command s then [PhCommand]
+  else match rest with
+       | [] => [PhRepl]
+       | _ :: _ =>
+           if script_fails
+           then (if exitonfail s then [PhScript] else [PhScript; PhReplAfterFailedScript])
+           else (if interactive s then [PhScript; PhReplAfterScript] else [PhScript])
+       end.
+
+(* every phase runs on the one interpreter ReplMain made *)
+Definition session (l : list arg) (script_fails : bool) : option (list (phase * outcome)) :=
+  match scan st0 l with
+  | Rejected => None
+  | Parsed s rest => Some (map (fun ph => (ph, kind_of s)) (plan s rest script_fails))
+  end.
